@@ -7,7 +7,7 @@
 //! bytes fed to the real decoders are the bytes the theorems talk about.
 use calamine::verif_hooks::utils::{push_column, FTAB, FTAB_ARGC, FTAB_LEN};
 use calamine::verif_hooks::{xls as hx, xlsb as hb};
-use calamine::{Ods, Reader, Xls, Xlsb, Xlsx};
+use calamine::{HeaderRow, Ods, Reader, Xls, Xlsb, Xlsx};
 use std::collections::BTreeMap;
 use std::io::Cursor;
 use verif_harness::xlsbw::{BVal, DefinedName, Fmla, XlsbBook, XlsbSheet};
@@ -475,7 +475,21 @@ fn gen_ctx(rng: &mut Rng) -> Ctx {
     let nn = rng.range(0, 3) as usize;
     let mut npool: Vec<&str> = NAME_POOL.to_vec();
     rng.shuffle(&mut npool);
-    let names = npool[..nn].iter().map(|s| s.to_string()).collect();
+    let mut names: Vec<String> = npool[..nn].iter().map(|s| s.to_string()).collect();
+    match rng.below(6) {
+        0 => {
+            // sheet-scoped built-in names: the same text twice, next to each other (as Excel writes them)
+            let at = rng.below(names.len() as u64 + 1) as usize;
+            names.insert(at, "_xlnm.Print_Area".into());
+            names.insert(at, "_xlnm.Print_Area".into());
+        }
+        1 => {
+            // the same text twice, not adjacent
+            names.insert(0, "_xlnm._FilterDatabase".into());
+            names.push("_xlnm._FilterDatabase".into());
+        }
+        _ => {}
+    }
     let nx = rng.range(1, 4) as usize;
     let xtis = (0..nx).map(|_| rng.below(ns as u64) as i16).collect();
     Ctx { sheets, names, xtis }
@@ -1154,6 +1168,8 @@ fn report_expr_case(e: &Expr, ctx: &Ctx, drv: &mut Driver, rep: &mut Report, shr
 struct FileCase {
     ctx: Ctx,
     cells: Vec<(usize, u32, u32, Expr)>,
+    /// xls only: formula cells whose rgce (hex, without cce) the decoder gives up on after some operands
+    bad: Vec<(usize, u32, u32, String)>,
 }
 
 impl FileCase {
@@ -1165,20 +1181,31 @@ impl FileCase {
             }
             s.push_str(&format!(" {sh} {r} {c} {}", e.wire()));
         }
+        s.push_str(" #");
+        for (sh, r, c, h) in &self.bad {
+            s.push_str(&format!(" {sh} {r} {c} {h}"));
+        }
         s
     }
     fn parse(words: &[&str]) -> FileCase {
         let bar = words.iter().position(|w| *w == "|").unwrap();
+        let hash = words.iter().position(|w| *w == "#").unwrap_or(words.len());
         let ctx = Ctx::parse(&words[1..bar].join(" "));
         let mut cells = vec![];
-        for chunk in words[bar + 1..].split(|w| *w == ";") {
+        for chunk in words[bar + 1..hash].split(|w| *w == ";") {
             if chunk.is_empty() {
                 continue;
             }
             let mut it = chunk[3..].iter();
             cells.push((chunk[0].parse().unwrap(), chunk[1].parse().unwrap(), chunk[2].parse().unwrap(), Expr::parse(&mut it)));
         }
-        FileCase { ctx, cells }
+        let mut bad = vec![];
+        if hash < words.len() {
+            for q in words[hash + 1..].chunks(4) {
+                bad.push((q[0].parse().unwrap(), q[1].parse().unwrap(), q[2].parse().unwrap(), q[3].to_string()));
+            }
+        }
+        FileCase { ctx, cells, bad }
     }
 }
 
@@ -1192,6 +1219,7 @@ fn gen_file_case(rng: &mut Rng, wide: bool) -> FileCase {
     let mut ctx = gen_ctx(rng);
     let o = GenOpts { wide };
     let mut cells = vec![];
+    let mut bad = vec![];
     if rng.chance(1, 8) {
         // dangling XTI entries (deleted / external sheets): impl vs model only
         ctx.xtis.push(*rng.pick(&[-1i16, -2, 9, 300]));
@@ -1231,8 +1259,35 @@ fn gen_file_case(rng: &mut Rng, wide: bool) -> FileCase {
             };
             cells.push((sh, r, c, e));
         }
+        // formulas outside the grammar that the xls decoder gives up on AFTER k >= 1 operands (PtgMemFunc / PtgMemArea /
+        // PtgRefN / an unknown function index …): each formula's text depends on its own bytes only, so their
+        // neighbours — in the same sheet and in the following sheets — must read exactly as without them
+        if !wide && rng.chance(1, 3) {
+            for _ in 0..rng.range(1, 2) {
+                let r = r0 + rng.below(64) as u32;
+                let c = c0 + rng.below(32) as u32;
+                if !used.insert((r, c)) {
+                    continue;
+                }
+                let mut rg: Vec<u8> = vec![];
+                for _ in 0..rng.range(1, 3) {
+                    rg.extend_from_slice(&[0x1e, rng.below(200) as u8, 0]);
+                }
+                rg.extend_from_slice(match rng.below(5) {
+                    0 => &[0x29, 0x03, 0x00, 0x1e, 0x01, 0x00][..],
+                    1 => &[0x26, 0, 0, 0, 0, 0, 0][..],
+                    2 => &[0x2c, 0, 0, 0, 0][..],
+                    3 => &[0x21, 0xf4, 0x01][..],
+                    _ => &[0x19, 0x7f, 0, 0][..],
+                });
+                if rng.chance(1, 2) {
+                    rg.extend_from_slice(&[0x1e, 9, 0, 0x03]);
+                }
+                bad.push((sh, r, c, hex(&rg)));
+            }
+        }
     }
-    FileCase { ctx, cells }
+    FileCase { ctx, cells, bad }
 }
 
 /// canonical dump of a formula range: `start end` + every cell of the rectangle (empty strings included)
@@ -1265,7 +1320,43 @@ fn expected_dump(cells: &BTreeMap<(u32, u32), String>) -> String {
     dump_range(Some((r0, c0)), Some((r1, c1)), &|r, c| cells.get(&(r, c)).cloned().unwrap_or_default())
 }
 
-fn impl_dump<R: Reader<Cursor<Vec<u8>>>>(wb: &mut R, sheet: &str) -> String
+/// `history`: what is done with the workbook object before the formulas are read. The formulas of a sheet do not
+/// depend on the header-row option nor on earlier reads (pinned behaviour of all four readers):
+/// 0 = nothing, 1 = `worksheet_range` first, n >= 2 = `with_header_row(Row(n - 2))`
+fn impl_dump<R: Reader<Cursor<Vec<u8>>>>(wb: &mut R, sheet: &str, history: u32) -> String
+where
+    R::Error: std::fmt::Debug,
+{
+    match history {
+        0 => {}
+        1 => {
+            let _ = wb.worksheet_range(sheet);
+        }
+        n => {
+            // (no `worksheet_range` here: a header row far above the data makes the dense value range huge, D37)
+            wb.with_header_row(HeaderRow::Row(n - 2));
+        }
+    }
+    let out = impl_dump0(wb, sheet);
+    if history >= 2 {
+        wb.with_header_row(HeaderRow::FirstNonEmptyRow);
+    }
+    out
+}
+
+/// header-row histories around the rows that hold formulas
+fn pick_history(rng: &mut Rng, rows: &[u32]) -> u32 {
+    match rng.below(8) {
+        0..=2 => 0,
+        3 => 1,
+        4 => 2 + rng.below(4) as u32,
+        5 => 2 + rows.iter().min().copied().unwrap_or(0) + rng.below(3) as u32,
+        6 => 2 + rows.iter().max().copied().unwrap_or(0) + rng.below(3) as u32,
+        _ => 2 + *rng.pick(&[7u32, 100, 70_000, 2_000_000]),
+    }
+}
+
+fn impl_dump0<R: Reader<Cursor<Vec<u8>>>>(wb: &mut R, sheet: &str) -> String
 where
     R::Error: std::fmt::Debug,
 {
@@ -1327,8 +1418,27 @@ fn run_file_case(fc: &FileCase, drv: &mut Driver, rep: &mut Report) {
     if cs.iter().all(|c| c.xls.is_some()) {
         let mut book = XlsBook::new();
         book.xtis = fc.ctx.xti_triples();
-        for n in &fc.ctx.names {
-            book.names.push(XlsName { name: n.clone(), rgce: vec![0x3a, 0, 0, 0, 0, 0, 0], name_wide: None, itab: 0 });
+        for (k, n) in fc.ctx.names.iter().enumerate() {
+            // built-in names are sheet-scoped (itab = 1-based sheet), the others workbook-scoped
+            let itab = if n.starts_with("_xlnm") { (k % fc.ctx.sheets.len()) as u16 + 1 } else { 0 };
+            book.names.push(XlsName { name: n.clone(), rgce: vec![0x3a, 0, 0, 0, 0, 0, 0], name_wide: None, itab });
+        }
+        // undecodable formulas: expected text = the reader's documented fallback around the decoder's error
+        let mut bad_txt: Vec<(usize, u32, u32, String)> = vec![];
+        for (sh, r, c, h) in &fc.bad {
+            let rg = unhex(h);
+            let m = decode_model(&drv.ask(&format!("xls {} {}", hex(&frame_xls(&rg)), fc.ctx.wire())));
+            match m.strip_prefix("err:") {
+                Some(e) => bad_txt.push((*sh, *r, *c, format!("Unrecognised formula for cell ({r}, {c}): {e}"))),
+                None => rep.fail("model_vs_spec", "file_bad_formula_decodes", &input, "", &m, "an error"),
+            }
+        }
+        if fc.ctx.sheets.len() >= 2 && lrng.chance(1, 2) {
+            // sheet substreams stored in another order than the tabs (BOUNDSHEET8 carries each offset)
+            let mut order: Vec<usize> = (0..fc.ctx.sheets.len()).collect();
+            lrng.shuffle(&mut order);
+            rep.count("file_xls_substreams_permuted");
+            book.substream_order = Some(order);
         }
         for (i, name) in fc.ctx.sheets.iter().enumerate() {
             let mut sh = XlsSheet::new(name);
@@ -1340,6 +1450,12 @@ fn run_file_case(fc: &FileCase, drv: &mut Driver, rep: &mut Report) {
                     _ => Cached::Str("x".into()),
                 };
                 sh.cells.push(XlsCell::new(c.r as u16, c.c as u16, CellV::Formula { rgce: c.xls.clone().unwrap(), cached }));
+            }
+            for (bsh, r, c, h) in &fc.bad {
+                if *bsh == i {
+                    rep.count("file_xls_undecodable_formula_cell");
+                    sh.cells.push(XlsCell::new(*r as u16, *c as u16, CellV::Formula { rgce: unhex(h), cached: Cached::Num(2.0) }));
+                }
             }
             // a value cell in the same row, outside the window: must not show up as a formula
             if let Some(c) = cs.iter().find(|c| c.sh == i) {
@@ -1353,9 +1469,18 @@ fn run_file_case(fc: &FileCase, drv: &mut Driver, rep: &mut Report) {
         match guarded(|| Xls::new(Cursor::new(bytes))) {
             Ok(Ok(mut wb)) => {
                 for (i, name) in fc.ctx.sheets.iter().enumerate() {
-                    let exp: BTreeMap<(u32, u32), String> = cs.iter().filter(|c| c.sh == i).map(|c| ((c.r, c.c), c.oracle.clone())).collect();
-                    let model: BTreeMap<(u32, u32), String> = cs.iter().filter(|c| c.sh == i).map(|c| ((c.r, c.c), strip(&c.mx))).collect();
-                    let imp = guarded(|| impl_dump(&mut wb, name)).unwrap_or_else(|p| format!("panic:{p}"));
+                    let mut exp: BTreeMap<(u32, u32), String> = cs.iter().filter(|c| c.sh == i).map(|c| ((c.r, c.c), c.oracle.clone())).collect();
+                    let mut model: BTreeMap<(u32, u32), String> = cs.iter().filter(|c| c.sh == i).map(|c| ((c.r, c.c), strip(&c.mx))).collect();
+                    for (bsh, r, c, t) in &bad_txt {
+                        if *bsh == i {
+                            exp.insert((*r, *c), t.clone());
+                            model.insert((*r, *c), t.clone());
+                        }
+                    }
+                    let rows: Vec<u32> = exp.keys().map(|k| k.0).collect();
+                    let hist = pick_history(&mut lrng, &rows);
+                    rep.count(if hist >= 2 { "history.header_row_before_formula" } else { "history.plain" });
+                    let imp = guarded(|| impl_dump(&mut wb, name, hist)).unwrap_or_else(|p| format!("panic:{p}"));
                     let m = expected_dump(&model);
                     let e = if fc.ctx.has_dangling() { m.clone() } else { expected_dump(&exp) };
                     if imp != e {
@@ -1377,8 +1502,9 @@ fn run_file_case(fc: &FileCase, drv: &mut Driver, rep: &mut Report) {
     {
         let mut book = XlsbBook::new();
         book.extern_sheets = fc.ctx.xtis.iter().map(|&i| (i as i32, i as i32)).collect();
-        for n in &fc.ctx.names {
-            book.names.push(DefinedName { name: n.clone(), rgce: vec![0x3a, 0, 0, 0, 0, 0, 0, 0, 0], itab: 0xFFFF_FFFF });
+        for (k, n) in fc.ctx.names.iter().enumerate() {
+            let itab = if n.starts_with("_xlnm") { (k % fc.ctx.sheets.len()) as u32 } else { 0xFFFF_FFFF };
+            book.names.push(DefinedName { name: n.clone(), rgce: vec![0x3a, 0, 0, 0, 0, 0, 0, 0, 0], itab });
         }
         for (i, name) in fc.ctx.sheets.iter().enumerate() {
             let mut sh = XlsbSheet::new(name);
@@ -1402,7 +1528,10 @@ fn run_file_case(fc: &FileCase, drv: &mut Driver, rep: &mut Report) {
                 for (i, name) in fc.ctx.sheets.iter().enumerate() {
                     let exp: BTreeMap<(u32, u32), String> = cs.iter().filter(|c| c.sh == i).map(|c| ((c.r, c.c), c.oracle.clone())).collect();
                     let model: BTreeMap<(u32, u32), String> = cs.iter().filter(|c| c.sh == i).map(|c| ((c.r, c.c), strip(&c.mb))).collect();
-                    let imp = guarded(|| impl_dump(&mut wb, name)).unwrap_or_else(|p| format!("panic:{p}"));
+                    let rows: Vec<u32> = exp.keys().map(|k| k.0).collect();
+                    let hist = pick_history(&mut lrng, &rows);
+                    rep.count(if hist >= 2 { "history.header_row_before_formula" } else { "history.plain" });
+                    let imp = guarded(|| impl_dump(&mut wb, name, hist)).unwrap_or_else(|p| format!("panic:{p}"));
                     let m = expected_dump(&model);
                     let e = if fc.ctx.has_dangling() { m.clone() } else { expected_dump(&exp) };
                     if imp != e {
@@ -1597,6 +1726,7 @@ fn gen_xlsx_case(rng: &mut Rng) -> XlsxCase {
 fn xlsx_case_fails(xc: &XlsxCase, drv: &mut Driver) -> Vec<Fail> {
     let mut fails = vec![];
     let layout = Layout::random(&mut Rng::new(xc.layout_seed));
+    let mut hrng = Rng::new(xc.layout_seed ^ 0x4ead_e7);
     let built = xc.book().build(&layout);
     let events = built.sheet_events.clone();
     match guarded(|| Xlsx::new(Cursor::new(built.bytes))) {
@@ -1605,7 +1735,9 @@ fn xlsx_case_fails(xc: &XlsxCase, drv: &mut Driver) -> Vec<Fail> {
                 let exp: BTreeMap<(u32, u32), String> =
                     g.iter().filter_map(|(p, (_, f))| f.as_ref().filter(|f| !f.is_empty()).map(|f| (*p, f.clone()))).collect();
                 let e = expected_dump(&exp);
-                let imp = guarded(|| impl_dump(&mut wb, XNAMES[i])).unwrap_or_else(|p| format!("panic:{p}"));
+                let rows: Vec<u32> = exp.keys().map(|k| k.0).collect();
+                let hist = pick_history(&mut hrng, &rows);
+                let imp = guarded(|| impl_dump(&mut wb, XNAMES[i], hist)).unwrap_or_else(|p| format!("panic:{p}"));
                 // model: the `next_formula` cursor machine on exactly the events that were written
                 let reply = drv.ask(&format!("xf {}", ev_wire(&events[i])));
                 let m = match reply.strip_prefix("ok") {
@@ -1782,7 +1914,9 @@ fn ods_case_fails(oc: &OdsCase) -> Vec<Fail> {
     let mut fails = vec![];
     match guarded(|| Ods::new(Cursor::new(bytes))) {
         Ok(Ok(mut wb)) => {
-            let imp = guarded(|| impl_dump(&mut wb, "Sheet1")).unwrap_or_else(|p| format!("panic:{p}"));
+            let rows: Vec<u32> = exp.keys().map(|k| k.0).collect();
+            let hist = pick_history(&mut Rng::new(fnv64(oc.wire().as_bytes())), &rows);
+            let imp = guarded(|| impl_dump(&mut wb, "Sheet1", hist)).unwrap_or_else(|p| format!("panic:{p}"));
             if imp != e {
                 fails.push(Fail { kind: "impl_vs_spec", sig: "file_ods_worksheet_formula".into(), imp, model: String::new(), expect: e });
             }
